@@ -515,7 +515,125 @@ def run_no_options(case: dict) -> list[str]:
     return []
 
 
+def run_reflexive(case: dict) -> list[str]:
+    """Statements that use one IRI in two slots (x sameAs x; subject == graph name), between
+    statements of other namespaces: every reference must resolve on a reader to what was meant."""
+    import itertools  # noqa: PLC0415
+
+    from mc import drivers as DR  # noqa: PLC0415
+    from mc import jspec  # noqa: PLC0415
+    from mc import terms as T  # noqa: PLC0415
+    from mc.terms import I  # noqa: PLC0415
+
+    DR.ensure_rdflib_plugin()
+    api, cls = case["api"], case["cls"]
+    a, b = "http://a.example/ns#", "http://b.example/vocab/"
+    alpha = [(I(a + "x"), I(a + "p"), I(a + "x")), (I(b + "y"), I(b + "q"), I(b + "y")),
+             (I(a + "n"), I(a + "q"), I(a + "a")), (I(b + "y"), I(a + "p"), I(a + "x")),
+             (I(a + "x"), I(b + "q"), I(b + "y"))]
+    if cls == "quad":
+        gs = [0, 2, 0, 2, 1]  # graph name = the statement's subject / object / predicate
+        alpha = [(*t, t[g]) for t, g in zip(alpha, gs)]
+    fails = []
+    for preset in ((8, 4, 0), (8, 0, 0), (16, 2, 0)):
+        for k in (1, 2, 3):
+            for seq in itertools.product(alpha, repeat=k):
+                opts = DR.make_options(cls, preset, 250, True, generalized=False, rdf_star=False)
+                try:
+                    data = (DR.g_write if api == "generic" else DR.r_write)(list(seq), cls, opts)
+                    _, per = jspec.decode_bytes(data)
+                    got = [T.norm_st(x) for x in jspec.statements(per)]
+                except jspec.SpecViolation as e:
+                    fails.append(f"{api} {cls} tables {preset}: {list(seq)} is written as a stream "
+                                 f"that violates the format: {e}")
+                    continue
+                if got != T.norm_seq(list(seq)):
+                    fails.append(f"{api} {cls} tables {preset}: {list(seq)} resolves on a reader "
+                                 f"to {got}")
+                if len(fails) > 5:
+                    return fails
+    return fails
+
+
+def run_broken_source(case: dict) -> list[str]:
+    """One stream object serves several stream_frames() calls; the caller's statement source of
+    the first call breaks off (raises, or the frame generator is closed). Entries the writer
+    assigned for statements it took must still reach the reader before they are referred to."""
+    from mc import drivers as DR  # noqa: PLC0415
+    from mc import jspec  # noqa: PLC0415
+    from mc import terms as T  # noqa: PLC0415
+    from mc.terms import I, L  # noqa: PLC0415
+
+    DR.ensure_rdflib_plugin()
+    api, cls, how, k, fs = case["api"], case["cls"], case["how"], case["k"], case["fs"]
+    a, b = "http://a.example/ns#", "http://b.example/vocab/"
+    first = [(I(a + "s1"), I(a + "p"), L("1", None, "http://d.example/t")),
+             (I(b + "s2"), I(a + "p"), I(b + "o2")), (I(a + "s3"), I(b + "q"), I(a + "s1")),
+             (I(b + "s4"), I(b + "q"), L("4", None, "http://d.example/t"))]
+    second = [(I(b + "o2"), I(b + "q"), I(a + "s1")), (I(a + "s3"), I(a + "p"),
+                                                        L("5", None, "http://d.example/t"))]
+    if cls == "quad":
+        first = [(*t, I(a + "g")) for t in first]
+        second = [(*t, I(b + "s2")) for t in second]
+    conv = T.st_to_generic if api == "generic" else T.st_to_rdflib
+    if api == "generic":
+        from pyjelly.integrations.generic import serialize as ser  # noqa: PLC0415
+    else:
+        from pyjelly.integrations.rdflib import serialize as ser  # noqa: PLC0415
+    opts = DR.make_options(cls, (8, 4, 2), fs, True, generalized=False, rdf_star=False)
+    stream = (DR.g_stream if api == "generic" else DR.r_stream)(cls, opts)
+    taken: list = []
+
+    def source():
+        for i, st in enumerate(first):
+            if how == "raise" and i == k:
+                raise RuntimeError("the caller's source broke off")
+            taken.append(st)
+            yield conv(st)
+
+    blobs = []
+    gen = ser.stream_frames(stream, source())
+    try:
+        for n, f in enumerate(gen):
+            blobs.append(f.SerializeToString())
+            if how == "close" and n + 1 == k:
+                gen.close()
+                break
+    except RuntimeError:
+        pass
+    try:
+        for f in ser.stream_frames(stream, (conv(st) for st in second)):
+            blobs.append(f.SerializeToString())
+    except Exception as e:  # noqa: BLE001
+        return []  # a stream that refuses further use after the interruption is fine
+    from mc import jwire  # noqa: PLC0415
+
+    want = T.norm_seq(taken + second)
+    try:
+        _, per = jspec.decode_frames(jwire.read_delimited(jwire.write_delimited(blobs)))
+        got = [T.norm_st(x) for x in jspec.statements(per)]
+    except (jspec.SpecViolation, jwire.WireError) as e:
+        return [f"{api} {cls}: the source of the first stream_frames() call broke off ({how} at "
+                f"{k}, frame size {fs}); the frames of both calls together violate the format: {e}"]
+    if got != want and not (how == "close" and got == [s for s in want if s in got]
+                            and all(s in got for s in T.norm_seq(second))
+                            and jspec_clean_prefix(got, want)):
+        return [f"{api} {cls}: after the first call's source broke off ({how} at {k}, frame size "
+                f"{fs}) the frames decode to {got}, the statements taken were {want}"]
+    return []
+
+
+def jspec_clean_prefix(got: list, want: list) -> bool:
+    """got is want with some statements left out (never an altered or invented one)."""
+    it = iter(want)
+    return all(any(g == w for w in it) for g in got)
+
+
 def run_declared(case: dict) -> list[str]:
+    if case["rule"] == "reflexive":
+        return run_reflexive(case)
+    if case["rule"] == "broken-source":
+        return run_broken_source(case)
     if case["rule"] == "no-options":
         return run_no_options(case)
     if case["rule"] == "grouped-restart":
@@ -556,6 +674,14 @@ def shard4(job) -> dict:
         n = 0
     if rule == "no-options":
         case = {"layer": 4, "rule": rule, "n": 0, "api": n}
+        n = 0
+    if rule == "reflexive":
+        case = {"layer": 4, "rule": rule, "n": 0, "api": n[0], "cls": n[1]}
+        n = 3 * 155 - 5
+    if rule == "broken-source":
+        api, cls, how, k, fs = n
+        case = {"layer": 4, "rule": rule, "n": 0, "api": api, "cls": cls, "how": how, "k": k,
+                "fs": fs}
         n = 0
     acc.evals = n + 5
     for msg in run_declared(case):
@@ -610,6 +736,12 @@ def run(ctx) -> None:
         jobs.append(("l4", ("recut", sub)))
     for api in ("generic", "rdflib"):
         jobs.append(("l4", ("no-options", api)))
+        for cls in ("triple", "quad"):
+            jobs.append(("l4", ("reflexive", (api, cls))))
+            for how in ("raise", "close"):
+                for k in (1, 2, 3):
+                    for fs in (2, 5, 250):
+                        jobs.append(("l4", ("broken-source", (api, cls, how, k, fs))))
     # biggest first so the pool stays busy
     def weight(j):
         if j[0] == "l1":
